@@ -226,6 +226,29 @@ def judge(rec, opts):
     except Exception as e:  # noqa: BLE001
         out.append((f"analyze-async-raised-{type(e).__name__}:{where}", {"templates": templates}))
     out += [(f"{sig}:{where}", dict(det, templates=templates)) for sig, det in span_faults(a, templates)[:2]]
+    # the same root loaded by the loader under a name in a directory, whose last part is the name of a partial it uses:
+    # what is reported (names) is what is reported for the root parsed from a string, and every span names the template
+    # whose source it lies in
+    others = [n for n in templates if n != main]
+    if others and not out:
+        alias = f"d/{others[0]}"
+        both = dict(templates)
+        both[alias] = templates[main]
+        env2 = replay.make_env(rec["cfg"], loader=DictLoader(dict(both)))
+        try:
+            a3 = env2.get_template(alias).analyze()
+        except Exception as e:  # noqa: BLE001
+            a3 = None
+            if type(e).__name__ != "TemplateNotFoundError":
+                out.append((f"analyze-raised-{type(e).__name__}:loaded-root:{where}", {"templates": both, "error": str(e)[:200]}))
+        if a3 is not None:
+            for what in ("variables", "globals", "filters", "tags"):
+                if set(getattr(a, what)) != set(getattr(a3, what)):
+                    out.append((f"loaded-root-differs:{what}:{where}", {"templates": both, "root": alias, "from_string": sorted(getattr(a, what)),
+                                                                         "loaded": sorted(getattr(a3, what))}))
+                    break
+            else:
+                out += [(f"{sig}:loaded-root:{where}", dict(det, templates=both, root=alias)) for sig, det in span_faults(a3, both)[:1]]
     for mode in ("sync", "async"):
         LOOKUPS.clear(); FILTERS.clear(); TAGS.clear(); TAG_SITES.clear(); FILTER_SITES.clear()
         try:
